@@ -498,6 +498,16 @@ func mintPool() []realTok {
 			}
 			pool = append(pool, realTok{loc, tok})
 		}
+		// a finalised PROOF token at the same location (a discharge of a third-party caveat that names this very
+		// location): permission and discharge tokens are told apart by location alone, whatever the nonce says
+		ka := macaroon.NewEncryptionKey()
+		if c3, err := macaroon.NewCaveat3P(ka, loc); err == nil {
+			if _, d, err := macaroon.DischargeTicket(ka, loc, c3.Ticket); err == nil {
+				if tok, err := d.Encode(); err == nil {
+					pool = append(pool, realTok{loc, tok})
+				}
+			}
+		}
 	}
 	return pool
 }
